@@ -11,8 +11,8 @@ shutil.copytree(f"{src}/demo", f"{dst}/demo", ignore=shutil.ignore_patterns("tar
 notes = open(f"{src}/notes.md").read() if os.path.exists(f"{src}/notes.md") else ""
 shutil.copy(f"{src}/notes.md", dst) if notes else None
 first = [l for l in notes.split("\n") if l.strip() and not l.startswith("#")]
-log = open("/tmp/confirm4.log" if src.startswith("/tmp/seed4/") else "/tmp/confirm3.log" if src.startswith("/tmp/seed3/") else ("/tmp/confirm2.log" if src.startswith("/tmp/seed2/") else "/tmp/confirm.log")).read()
-m = re.search(r"=== " + re.escape(re.sub(r"^/tmp/seed[234]?/", "", src)) + r"\n(.*?)(?:\n===|\Z)", log, re.S)
+log = open("/tmp/confirm5.log" if src.startswith("/tmp/seed5/") else "/tmp/confirm4.log" if src.startswith("/tmp/seed4/") else "/tmp/confirm3.log" if src.startswith("/tmp/seed3/") else ("/tmp/confirm2.log" if src.startswith("/tmp/seed2/") else "/tmp/confirm.log")).read()
+m = re.search(r"=== " + re.escape(re.sub(r"^/tmp/seed[2345]?/", "", src)) + r"\n(.*?)(?:\n===|\Z)", log, re.S)
 meta = {
     "property": pid,
     "breaks": (first[0] if first else "")[:600],
